@@ -747,10 +747,30 @@ Section RwSem.
   Variable ops : list string.
   Notation ev := (eval B ops).
   Variable ce : cenv.
-  Hypothesis Hlit : lit_env ce.
+  (* no attribute table: nothing is folded (class constants, enums and methods of literals are outside this theorem) *)
+  Hypothesis Hattr : ce_attrs ce = [].
+
+  (* what the snapshot holds under the names that occur in the expression: plain literals, or nothing *)
+  Definition lit_at (x : string) : Prop :=
+    match lookup_var ce x with
+    | Some (CVal c) => const_value c <> None
+    | Some (CFun _) => False
+    | None => True
+    end.
+
+  Definition lit_names (e : expr) : Prop := forall x, In x (names_in e) -> lit_at x.
+
+  Lemma names_child e c : In c (children e) -> incl (names_in c) (names_in e).
+  Proof.
+    intros Hin z Hz. rewrite (names_in_children e). destruct e; try (apply in_flat_map; exists c; split; assumption).
+    all: simpl in Hin; contradiction.
+  Qed.
+
+  Lemma lit_names_child e c : In c (children e) -> lit_names e -> lit_names c.
+  Proof. intros Hin H x Hx. apply H. eapply names_child; eauto. Qed.
 
   Lemma lit_no_attr c a : lookup_attr ce c a = None.
-  Proof. unfold lookup_attr. rewrite (proj2 (proj2 Hlit)). reflexivity. Qed.
+  Proof. unfold lookup_attr. rewrite Hattr. reflexivity. Qed.
 
   Lemma lit_not_keeps c : const_value c <> None -> keeps_const_callee c = false.
   Proof. destruct c; simpl; intros H; try reflexivity. contradiction. Qed.
@@ -759,7 +779,10 @@ Section RwSem.
   Definition Rc (st : list (list string)) (E1 E2 : env) : Prop :=
     forall x, if is_arg st x then lookup x E1 = lookup x E2
               else match lookup_var ce x with
-                   | Some (CVal c) => lookup x E1 = const_value c
+                   | Some (CVal c) => match const_value c with
+                                      | Some v => lookup x E1 = Some v
+                                      | None => lookup x E1 = lookup x E2
+                                      end
                    | _ => lookup x E1 = lookup x E2
                    end.
 
@@ -782,15 +805,16 @@ Section RwSem.
     r = e' \/ exists x c, e = Name x /\ e' = Const c /\ r = Name x /\ const_value c <> None.
 
   Lemma rw_name_inv st x e' r :
+    lit_at x ->
     rw ce st (Name x) = Ok (e', r) ->
     (e' = Name x /\ r = Name x /\ (is_arg st x = true \/ lookup_var ce x = None)) \/
     (exists c, e' = Const c /\ r = Name x /\ is_arg st x = false /\ lookup_var ce x = Some (CVal c) /\ const_value c <> None).
   Proof.
-    cbn [rw]. destruct (is_arg st x) eqn:Ha.
+    intros Hx. unfold lit_at in Hx. cbn [rw]. destruct (is_arg st x) eqn:Ha.
     - intros H; inversion H; subst. left; auto.
     - destruct (lookup_var ce x) as [[c|l]|] eqn:Hl.
-      + intros H; inversion H; subst. right. exists c. repeat split; auto. eapply lit_lookup; eauto.
-      + exfalso. eapply lit_lookup_fun; eauto.
+      + intros H; inversion H; subst. right. exists c. repeat split; auto.
+      + contradiction.
       + intros H; inversion H; subst. left; auto.
   Qed.
 
@@ -810,15 +834,15 @@ Section RwSem.
   Qed.
 
   Lemma rw_lambda_out st e ps b' r :
+    lit_names e ->
     rw ce st e = Ok (Lambda ps b', r) -> exists b rb, e = Lambda ps b /\ rw ce (ps :: st) b = Ok (b', rb).
   Proof.
-    intros H. destruct e.
-    - apply rw_name_inv in H. destruct H as [(H & _)|(c & H & _)]; discriminate.
+    intros Hln H. destruct e.
+    - apply rw_name_inv in H; [|apply Hln; left; reflexivity]. destruct H as [(H & _)|(c & H & _)]; discriminate.
     - cbn [rw] in H. inversion H.
     - destruct (rw_attr_inv _ _ _ _ _ H) as (v' & vr & Hv & _).
       cbn [rw] in H. rewrite Hv in H. cbn [sbind fst snd] in H.
       destruct v'; try (inversion H; fail). destruct (lookup_attr ce c a) as [[| [|] |]|]; try (inversion H; fail).
-      rewrite lit_no_attr in *. discriminate.
     - cbn [rw] in H. inv_same H. inversion H.
     - cbn [rw] in H. inv_same H. inversion H; subst. destruct q as [b1 rb]. eauto.
     - cbn [rw] in H. inv_same H. inversion H.
@@ -840,4 +864,391 @@ Section RwSem.
       { destruct cs as [|k [|v [|g gs]]]; try discriminate. inv_same H. inversion H. }
       inv_same H. inversion H.
   Qed.
+  (* callees that are neither a name, an attribute, a lambda nor a constant keep their shape *)
+  Definition plain_callee (e : expr) : Prop :=
+    (forall x, e <> Name x) /\ (forall s m, e <> Attr s m) /\ (forall ps b, e <> Lambda ps b) /\ (forall c, e <> Const c).
+
+  Lemma rw_plain_callee st e e' r :
+    plain_callee e -> rw ce st e = Ok (e', r) -> plain_callee e' /\ r = e'.
+  Proof.
+    intros (H1 & H2 & H3 & H4) H.
+    destruct e; try (exfalso; eapply H1; reflexivity); try (exfalso; eapply H2; reflexivity);
+      try (exfalso; eapply H3; reflexivity); try (exfalso; eapply H4; reflexivity);
+      cbn [rw] in H;
+      try (destruct gs; [discriminate|]);
+      try (inversion H; subst; split; [repeat split; intros; discriminate | reflexivity]; fail);
+      try (inv_same H; inversion H; subst; split; [repeat split; intros; discriminate | reflexivity]; fail).
+    (* Other *)
+    destruct (String.prefix "SetComp;" cls).
+    { destruct cs as [|h [|g gs]]; try discriminate. inv_same H. inversion H; subst.
+      split; [repeat split; intros; discriminate | reflexivity]. }
+    destruct (String.prefix "DictComp;" cls).
+    { destruct cs as [|k [|v [|g gs]]]; try discriminate. inv_same H. inversion H; subst.
+      split; [repeat split; intros; discriminate | reflexivity]. }
+    inv_same H. inversion H; subst. split; [repeat split; intros; discriminate | reflexivity].
+  Qed.
+
+  Lemma call_plain_none E f args kwn kwv : plain_callee f -> ev E (Call f args kwn kwv) = None.
+  Proof.
+    intros (H1 & H2 & H3 & _). destruct (ev E (Call f args kwn kwv)) eqn:Hev; [|reflexivity].
+    exfalso. eapply (call_other_none B ops); eauto.
+  Qed.
+
+  Lemma call_const_none E c args kwn kwv : ev E (Call (Const c) args kwn kwv) = None.
+  Proof.
+    destruct (ev E (Call (Const c) args kwn kwv)) eqn:Hev; [|reflexivity].
+    exfalso. eapply (call_other_none B ops); [| | | exact Hev]; intros; discriminate.
+  Qed.
+
+  Definition rw_ok2 (e : expr) : Prop :=
+    forall st E1 E2 e' r, lit_names e -> Rc st E1 E2 -> rw ce st e = Ok (e', r) -> eqv B ops E1 E2 e e' /\ Q e e' r.
+
+  Lemma eqv_of_eq E1 E2 a b : ev E1 a = ev E2 b -> eqv B ops E1 E2 a b.
+  Proof. intros H. split; [rewrite H | rewrite <- H]; apply refines_refl. Qed.
+
+  Lemma rw_list_eqv n l l' st E1 E2 :
+    (forall e0, size e0 < n -> rw_ok2 e0) -> (forall a, In a l -> size a < n) -> (forall a, In a l -> lit_names a) ->
+    Rc st E1 E2 ->
+    rw_list (rw ce st) l = Ok l' -> Forall2 (eqv B ops E1 E2) l l'.
+  Proof.
+    intros IH Hsz Hln HR H. apply rw_list_ok in H.
+    induction H as [|a a' l l' [r Ha] _ IHl]; constructor.
+    - eapply IH; [apply Hsz; left; reflexivity | apply Hln; left; reflexivity | exact HR | exact Ha].
+    - apply IHl; intros a0 H0; [apply Hsz | apply Hln]; right; exact H0.
+  Qed.
+
+  Lemma rw_list_args n l l' st E1 E2 :
+    (forall e0, size e0 < n -> rw_ok2 e0) -> (forall a, In a l -> size a < n) -> (forall a, In a l -> lit_names a) ->
+    Rc st E1 E2 ->
+    rw_list (rw ce st) l = Ok l' -> Forall2 (arg_eqv B ops E1 E2) l l'.
+  Proof.
+    intros IH Hsz Hln HR H. apply rw_list_ok in H.
+    induction H as [|a a' l l' [r Ha] _ IHl]; constructor;
+      [|apply IHl; intros a0 H0; [apply Hsz | apply Hln]; right; exact H0].
+    assert (Hsa : size a < n) by (apply Hsz; left; reflexivity).
+    assert (Hla : lit_names a) by (apply Hln; left; reflexivity).
+    destruct (IH a Hsa st E1 E2 a' r Hla HR Ha) as [[Hf Hb] _].
+    (* a lambda argument: its body under the parameters *)
+    assert (Hbody : forall ps b, a = Lambda ps b -> exists b' rb, a' = Lambda ps b' /\ rw ce (ps :: st) b = Ok (b', rb) /\
+               forall Eb, (forall y, In y (map fst Eb) <-> In y ps) -> eqv B ops (Eb ++ E1) (Eb ++ E2) b b').
+    { intros ps b ->. cbn [rw] in Ha. inv_same Ha. destruct q as [b' rb]. inversion Ha; subst.
+      exists b', rb. split; [reflexivity | split; [exact Hq|]]. intros Eb Hdom.
+      assert (Hsb : size b < n).
+      { pose proof (size_child (Lambda ps b) b (or_introl eq_refl)). lia. }
+      refine (proj1 (IH b Hsb (ps :: st) _ _ b' rb _ (Rc_ext st E1 E2 ps Eb HR Hdom) Hq)).
+      eapply lit_names_child; [|exact Hla]. left; reflexivity. }
+    split; apply arg_ok_intro; try assumption.
+    - intros x b Hab. destruct (Hbody _ _ Hab) as (b' & rb & -> & _ & Hb'). eexists; split; [reflexivity|].
+      intros v. exact (proj1 (Hb' [(x, v)] (fun y => iff_refl _))).
+    - intros x y b Hab. destruct (Hbody _ _ Hab) as (b' & rb & -> & _ & Hb'). eexists; split; [reflexivity|].
+      intros v w. refine (proj1 (Hb' [(y, w); (x, v)] _)). intros z; simpl; tauto.
+    - intros x b' Hab'. subst a'. destruct (rw_lambda_out _ _ _ _ _ Hla Ha) as (b & rb & -> & Hb0).
+      destruct (Hbody _ _ eq_refl) as (b2 & rb2 & Heq & _ & Hb'). inversion Heq; subst b2.
+      eexists; split; [reflexivity|]. intros v. exact (proj2 (Hb' [(x, v)] (fun y => iff_refl _))).
+    - intros x y b' Hab'. subst a'. destruct (rw_lambda_out _ _ _ _ _ Hla Ha) as (b & rb & -> & Hb0).
+      destruct (Hbody _ _ eq_refl) as (b2 & rb2 & Heq & _ & Hb'). inversion Heq; subst b2.
+      eexists; split; [reflexivity|]. intros v w. refine (proj2 (Hb' [(y, w); (x, v)] _)). intros z; simpl; tauto.
+  Qed.
+  Lemma comp_sem_none2 (f : env -> expr -> option value) E elt a b l : comp_sem f E elt (a :: b :: l) = None.
+  Proof.
+    destruct (comp_sem f E elt (a :: b :: l)) eqn:H; [|reflexivity].
+    apply comp_sem_some in H. destruct H as (x & it & ifs & H). discriminate.
+  Qed.
+
+  (* a comprehension ([mk] = ListComp / GenExp): both sides have a value only for a single plain [for] *)
+  Lemma rw_comp n (mk : expr -> list expr -> expr) elt gs st E1 E2 gs' elt' relt :
+    (forall e0, size e0 < n -> rw_ok2 e0) ->
+    size elt < n -> (forall g, In g gs -> size g < n) -> gs <> [] ->
+    lit_names elt -> (forall g, In g gs -> lit_names g) ->
+    Rc st E1 E2 ->
+    rw_gens (rw ce st) (rw ce (comp_targets gs :: st)) true gs = Ok gs' ->
+    rw ce (comp_targets gs :: st) elt = Ok (elt', relt) ->
+    refines (comp_sem ev E1 elt gs) (comp_sem ev E2 elt' gs') /\
+    refines (comp_sem ev E2 elt' gs') (comp_sem ev E1 elt gs).
+  Proof.
+    intros IH Hselt Hsgs Hne Hlelt Hlgs HR Hg Helt.
+    destruct gs as [|g gs]; [contradiction|].
+    destruct g; try (cbn [rw_gens] in Hg; discriminate).
+    rename g1 into t, g2 into it.
+    destruct gs as [|g2 gs].
+    - (* one generator *)
+      cbn [rw_gens] in Hg. inv_binds Hg. destruct q as [it' rit].
+      cbn [rw_gens] in Hq1. inversion Hq1; subst q1; clear Hq1. cbn [fst] in Hg. inversion Hg; subst gs'; clear Hg.
+      destruct t; try (split; cbn [comp_sem]; apply refines_none).
+      destruct is_async; [split; cbn [comp_sem]; apply refines_none|].
+      cbn [comp_targets names_in app] in *.
+      assert (Hsg : size (CompFor (Name id) it ifs false) < n) by (apply Hsgs; left; reflexivity).
+      assert (Hsit : size it < n).
+      { pose proof (size_child (CompFor (Name id) it ifs false) it). cbn [children] in H. specialize (H (or_intror (or_introl eq_refl))). lia. }
+      assert (Hsifs : forall a, In a ifs -> size a < n).
+      { intros a Ha. pose proof (size_child (CompFor (Name id) it ifs false) a). cbn [children] in H.
+        specialize (H (or_intror (or_intror Ha))). lia. }
+      assert (Hext : forall v, Rc ([id] :: st) ((id, v) :: E1) ((id, v) :: E2)).
+      { intros v. apply (Rc_ext st E1 E2 [id] [(id, v)] HR). intros y; reflexivity. }
+      assert (Hlg : lit_names (CompFor (Name id) it ifs false)) by (apply Hlgs; left; reflexivity).
+      assert (Hlit : lit_names it).
+      { eapply lit_names_child; [|exact Hlg]. cbn [children]. right; left; reflexivity. }
+      assert (Hlifs : forall a, In a ifs -> lit_names a).
+      { intros a Ha. eapply lit_names_child; [|exact Hlg]. cbn [children]. right; right; exact Ha. }
+      destruct (IH it Hsit st E1 E2 it' rit Hlit HR Hq) as [[Hit1 Hit2] _].
+      assert (Hifs : forall v, Forall2 (eqv B ops ((id, v) :: E1) ((id, v) :: E2)) ifs q0).
+      { intros v. eapply rw_list_eqv; eauto. }
+      assert (Helt' : forall v, eqv B ops ((id, v) :: E1) ((id, v) :: E2) elt elt').
+      { intros v. exact (proj1 (IH elt Hselt _ _ _ _ _ Hlelt (Hext v) Helt)). }
+      split.
+      + apply (c_comp B ops E1 E2 id it it' ifs q0 elt elt'); [exact Hit1 | |].
+        * intros v. exact (proj1 (eqv_lists B ops _ _ _ _ (Hifs v))).
+        * intros v. exact (proj1 (Helt' v)).
+      + apply (c_comp B ops E2 E1 id it' it q0 ifs elt' elt); [exact Hit2 | |].
+        * intros v. exact (proj2 (eqv_lists B ops _ _ _ _ (Hifs v))).
+        * intros v. exact (proj2 (Helt' v)).
+    - (* several generators: no value on either side *)
+      cbn [rw_gens] in Hg. inv_binds Hg.
+      destruct g2; try (cbn [rw_gens] in Hq1; discriminate).
+      cbn [rw_gens] in Hq1. inv_binds Hq1. inversion Hq1; subst q1. inversion Hg; subst gs'.
+      rewrite !comp_sem_none2. split; apply refines_none.
+  Qed.
+
+  Ltac plain_case Hq :=
+    match type of Hq with
+    | rw _ ?st0 ?f0 = Ok (?f1, _) =>
+        let Hpf := fresh "Hpf" in
+        assert (Hpf : plain_callee f0) by (unfold plain_callee; repeat split; intros; discriminate);
+        let Hp := fresh "Hp" in
+        destruct (rw_plain_callee st0 _ _ _ Hpf Hq) as [Hp ->];
+        let Hf' := fresh "Hf" in
+        assert (Hf' : match f1 with Const c => if keeps_const_callee c then f1 else f1 | _ => f1 end = f1)
+          by (destruct f1; try reflexivity; destruct (keeps_const_callee _); reflexivity);
+        rewrite Hf'; apply cc_none; apply call_plain_none; [exact Hpf | exact Hp]
+    end.
+
+  Theorem rw_ok2_all : forall n e, size e < n -> rw_ok2 e.
+  Proof.
+    intros n. induction n as [n IHn] using (well_founded_induction Wf_nat.lt_wf). intros e Hn.
+    assert (IH : forall e0, size e0 < size e -> rw_ok2 e0).
+    { intros e0 H0. exact (IHn (size e) Hn e0 H0). }
+    clear IHn Hn. intros st E1 E2 e' r Hln HR H.
+    assert (Hkid : forall c c' rc, In c (children e) -> rw ce st c = Ok (c', rc) -> eqv B ops E1 E2 c c' /\ Q c c' rc).
+    { intros c c' rc Hc Hrw. eapply IH; [apply size_child; exact Hc | eapply lit_names_child; eauto | exact HR | exact Hrw]. }
+    assert (Hkids : forall l l', (forall c, In c l -> In c (children e)) -> rw_list (rw ce st) l = Ok l' ->
+                    Forall2 (eqv B ops E1 E2) l l').
+    { intros l l' Hl Hrw. eapply (rw_list_eqv (size e)); eauto.
+      - intros a Ha. apply size_child. apply Hl; exact Ha.
+      - intros a Ha. eapply lit_names_child; [apply Hl; exact Ha | exact Hln]. }
+    destruct e as [x|c|v a|f args kwn kwv|ps b|o x|o l r0|o es|l cops rs|c t f|es|es|ks vs|v s|elt gs|elt gs|t i ifs asy|c|cls atoms cs].
+    - (* Name *)
+      pose proof (HR x) as Hx.
+      apply rw_name_inv in H; [|apply Hln; left; reflexivity].
+      destruct H as [(-> & -> & Hwhy)|(c & -> & -> & Ha & Hl & Hc)].
+      + split; [|left; reflexivity]. apply eqv_of_eq. cbn [eval].
+        destruct Hwhy as [Ha|Hl]; [rewrite Ha in Hx; exact Hx|].
+        destruct (is_arg st x); [exact Hx | rewrite Hl in Hx; exact Hx].
+      + split; [|right; eauto 10]. apply eqv_of_eq. cbn [eval]. rewrite Ha, Hl in Hx.
+        destruct (const_value c) eqn:Hcv; [exact Hx | contradiction].
+    - cbn [rw] in H. inversion H; subst. split; [apply eqv_of_eq; reflexivity | left; reflexivity].
+    - (* Attr *)
+      destruct (rw_attr_inv _ _ _ _ _ H) as (v' & vr & Hv & Hres).
+      destruct (Hkid v v' vr (or_introl eq_refl) Hv) as [Hev HQ].
+      destruct (Hres HQ) as [-> ->]. split; [apply cc_attr; exact Hev | left; reflexivity].
+    - (* Call *)
+      cbn [rw] in H. inv_same H. destruct q as [f' fr]. cbn [fst snd] in H. inversion H; subst; clear H.
+      split; [|left; reflexivity].
+      assert (Hargs : Forall2 (arg_eqv B ops E1 E2) args q0).
+      { eapply (rw_list_args (size (Call f args kwn kwv))); eauto.
+        - intros a Ha. apply size_child. cbn [children]. right. apply in_or_app; left; exact Ha.
+        - intros a Ha. eapply lit_names_child; [|exact Hln]. cbn [children]. right. apply in_or_app; left; exact Ha. }
+      assert (Hlf : lit_names f) by (eapply lit_names_child; [|exact Hln]; left; reflexivity).
+      assert (Hkw : Forall2 (eqv B ops E1 E2) kwv q1).
+      { apply Hkids; [|exact Hq1]. intros c Hc. cbn [children]. right. apply in_or_app; right; exact Hc. }
+      destruct f as [op|c0|s m| | lps lb | | | | | | | | | | | | | | ].
+      + (* by name *)
+        apply rw_name_inv in Hq; [|apply Hlf; left; reflexivity].
+        destruct Hq as [(-> & -> & _)|(c & -> & -> & _ & _ & Hc)].
+        * apply cc_call_name; assumption.
+        * rewrite (lit_not_keeps c Hc). apply cc_call_name; assumption.
+      + (* a constant as callee: no value *)
+        cbn [rw] in Hq. inversion Hq; subst.
+        apply cc_none; [apply call_const_none|]. destruct (keeps_const_callee c0); apply call_const_none.
+      + (* method *)
+        destruct (rw_attr_inv _ _ _ _ _ Hq) as (s' & sr & Hs & Hres).
+        assert (Hss : size s < size (Call (Attr s m) args kwn kwv)).
+        { pose proof (size_child (Call (Attr s m) args kwn kwv) (Attr s m) (or_introl eq_refl)).
+          pose proof (size_child (Attr s m) s (or_introl eq_refl)). lia. }
+        assert (Hls : lit_names s) by (eapply lit_names_child; [|exact Hlf]; left; reflexivity).
+        destruct (IH s Hss st E1 E2 s' sr Hls HR Hs) as [Hevs HQs].
+        destruct (Hres HQs) as [-> ->]. apply cc_call_attr; assumption.
+      + plain_case Hq.
+      + (* called lambda: it stays a called lambda *)
+        cbn [rw] in Hq. inv_same Hq. destruct q as [lb' rlb]. inversion Hq; subst; clear Hq.
+        assert (Hsb : size lb < size (Call (Lambda lps lb) args kwn kwv)).
+        { pose proof (size_child (Call (Lambda lps lb) args kwn kwv) (Lambda lps lb) (or_introl eq_refl)).
+          pose proof (size_child (Lambda lps lb) lb (or_introl eq_refl)). lia. }
+        assert (Hb : forall E', map fst E' = lps -> eqv B ops (E' ++ E1) (E' ++ E2) lb lb').
+        { intros E' Hdom. refine (proj1 (IH lb Hsb (lps :: st) _ _ lb' rlb _ _ Hq2)).
+          - eapply lit_names_child; [|exact Hlf]. left; reflexivity.
+          - apply Rc_ext; [exact HR | intros y; rewrite Hdom; reflexivity]. }
+        destruct (arg_eqv_lists B ops _ _ _ _ Hargs) as [Ha1 Ha2].
+        destruct (eqv_lists B ops _ _ _ _ Hkw) as [Hk1 Hk2].
+        split; apply c_call_lambda; try assumption;
+          try (apply (args_ok_vals B ops); assumption); intros E' Hdom; apply (Hb E' Hdom).
+      + plain_case Hq.
+      + plain_case Hq.
+      + plain_case Hq.
+      + plain_case Hq.
+      + plain_case Hq.
+      + plain_case Hq.
+      + plain_case Hq.
+      + plain_case Hq.
+      + plain_case Hq.
+      + plain_case Hq.
+      + plain_case Hq.
+      + plain_case Hq.
+      + plain_case Hq.
+      + plain_case Hq.
+    - (* Lambda: not a value on either side *)
+      cbn [rw] in H. inv_same H. inversion H; subst. split; [apply cc_none; reflexivity | left; reflexivity].
+    - cbn [rw] in H. inv_same H. destruct q as [x' rx]. inversion H; subst. split; [|left; reflexivity].
+      apply cc_unary. exact (proj1 (Hkid _ _ _ (or_introl eq_refl) Hq)).
+    - cbn [rw] in H. inv_same H. destruct q as [l' rl]; destruct q0 as [r' rr]. inversion H; subst. split; [|left; reflexivity].
+      apply cc_bin; [exact (proj1 (Hkid _ _ _ (or_introl eq_refl) Hq)) | exact (proj1 (Hkid _ _ _ (or_intror (or_introl eq_refl)) Hq0))].
+    - cbn [rw] in H. inv_same H. inversion H; subst. split; [|left; reflexivity].
+      apply cc_boolop. apply Hkids; [intros c0 Hc0; exact Hc0 | exact Hq].
+    - cbn [rw] in H. inv_same H. destruct q as [l' rl]. inversion H; subst. split; [|left; reflexivity].
+      apply cc_compare; [exact (proj1 (Hkid _ _ _ (or_introl eq_refl) Hq))|].
+      apply Hkids; [intros c0 Hc0; right; exact Hc0 | exact Hq0].
+    - cbn [rw] in H. inv_same H. destruct q as [c' rc]; destruct q0 as [t' rt]; destruct q1 as [f' rf]. inversion H; subst.
+      split; [|left; reflexivity].
+      apply cc_if; [exact (proj1 (Hkid _ _ _ (or_introl eq_refl) Hq)) | exact (proj1 (Hkid _ _ _ (or_intror (or_introl eq_refl)) Hq0))
+                   | exact (proj1 (Hkid _ _ _ (or_intror (or_intror (or_introl eq_refl))) Hq1))].
+    - cbn [rw] in H. inv_same H. inversion H; subst. split; [|left; reflexivity].
+      apply cc_tuple. apply Hkids; [intros c0 Hc0; exact Hc0 | exact Hq].
+    - cbn [rw] in H. inv_same H. inversion H; subst. split; [|left; reflexivity].
+      apply cc_list. apply Hkids; [intros c0 Hc0; exact Hc0 | exact Hq].
+    - cbn [rw] in H. inv_same H. inversion H; subst. split; [|left; reflexivity].
+      apply cc_dict; (apply Hkids; [|eassumption]); intros c0 Hc0; cbn [children]; apply in_or_app; [left | right]; exact Hc0.
+    - cbn [rw] in H. inv_same H. destruct q as [v' rv]; destruct q0 as [s' rs]. inversion H; subst. split; [|left; reflexivity].
+      apply cc_sub; [exact (proj1 (Hkid _ _ _ (or_introl eq_refl) Hq)) | exact (proj1 (Hkid _ _ _ (or_intror (or_introl eq_refl)) Hq0))].
+    - (* ListComp *)
+      cbn [rw] in H. destruct gs as [|g gs]; [discriminate|]. inv_same H. destruct q0 as [elt' relt]. inversion H; subst.
+      split; [|left; reflexivity]. unfold eqv. cbn [eval].
+      apply (rw_comp (size (ListComp elt (g :: gs))) ListComp elt (g :: gs) st E1 E2 q elt' relt IH); try assumption.
+      + apply size_child. left; reflexivity.
+      + intros g0 Hg0. apply size_child. right; exact Hg0.
+      + discriminate.
+      + eapply lit_names_child; [|exact Hln]. left; reflexivity.
+      + intros g0 Hg0. eapply lit_names_child; [|exact Hln]. right; exact Hg0.
+    - (* GenExp *)
+      cbn [rw] in H. destruct gs as [|g gs]; [discriminate|]. inv_same H. destruct q0 as [elt' relt]. inversion H; subst.
+      split; [|left; reflexivity]. unfold eqv. cbn [eval].
+      apply (rw_comp (size (GenExp elt (g :: gs))) GenExp elt (g :: gs) st E1 E2 q elt' relt IH); try assumption.
+      + apply size_child. left; reflexivity.
+      + intros g0 Hg0. apply size_child. right; exact Hg0.
+      + discriminate.
+      + eapply lit_names_child; [|exact Hln]. left; reflexivity.
+      + intros g0 Hg0. eapply lit_names_child; [|exact Hln]. right; exact Hg0.
+    - (* CompFor on its own: no value *)
+      cbn [rw] in H. inv_same H. inversion H; subst. split; [apply cc_none; reflexivity | left; reflexivity].
+    - cbn [rw] in H. inversion H; subst. split; [apply cc_none; reflexivity | left; reflexivity].
+    - (* Other: no value *)
+      cbn [rw] in H. destruct (String.prefix "SetComp;" cls).
+      { destruct cs as [|h [|g gs]]; try discriminate. inv_same H. inversion H; subst.
+        split; [apply cc_none; reflexivity | left; reflexivity]. }
+      destruct (String.prefix "DictComp;" cls).
+      { destruct cs as [|k [|v [|g gs]]]; try discriminate. inv_same H. inversion H; subst.
+        split; [apply cc_none; reflexivity | left; reflexivity]. }
+      inv_same H. inversion H; subst. split; [apply cc_none; reflexivity | left; reflexivity].
+  Qed.
 End RwSem.
+
+(* an environment that holds, under every name, exactly the literal value the snapshot's first binding gives it *)
+Fixpoint firsts (seen : list string) (l : list (string * capval)) : env :=
+  match l with
+  | [] => []
+  | (x, cv) :: l' =>
+      if mem x seen then firsts seen l'
+      else match cv with
+           | CVal c => match const_value c with Some v => [(x, v)] | None => [] end
+           | CFun _ => []
+           end ++ firsts (x :: seen) l'
+  end.
+
+Lemma lookup_firsts x l : forall seen,
+  lookup x (firsts seen l) =
+  if mem x seen then None else match assoc x l with Some (CVal c) => const_value c | _ => None end.
+Proof.
+  induction l as [|[y cv] l IH]; intros seen; simpl; [destruct (mem x seen); reflexivity|].
+  destruct (mem y seen) eqn:Hy.
+  - rewrite IH. destruct (mem x seen) eqn:Hx; [reflexivity|].
+    destruct (String.eqb x y) eqn:E; [|reflexivity]. apply String.eqb_eq in E; subst. congruence.
+  - rewrite EvalAgree.lookup_app, IH.
+    assert (Hm : mem x (y :: seen) = String.eqb x y || mem x seen) by reflexivity. rewrite Hm.
+    destruct (String.eqb x y) eqn:E.
+    + apply String.eqb_eq in E; subst. rewrite Hy.
+      destruct cv as [c|f]; [destruct (const_value c)|]; simpl; rewrite ?String.eqb_refl; reflexivity.
+    + destruct cv as [c|f]; [destruct (const_value c)|]; simpl; rewrite ?E; reflexivity.
+Qed.
+
+Lemma lookup_snapshot_first x l :
+  match assoc x l with Some (CVal c) => const_value c <> None | Some (CFun _) => False | None => True end ->
+  lookup x (snapshot_vals l) = match assoc x l with Some (CVal c) => const_value c | _ => None end.
+Proof.
+  induction l as [|[y cv] l IH]; simpl; intros H; [reflexivity|].
+  rewrite EvalAgree.lookup_app. destruct (String.eqb x y) eqn:E.
+  - apply String.eqb_eq in E; subst. destruct cv as [c|f]; [|contradiction].
+    destruct (const_value c) eqn:Hc; [|contradiction]. simpl. rewrite String.eqb_refl. reflexivity.
+  - destruct cv as [c|f]; [destruct (const_value c)|]; simpl; rewrite ?E; apply IH; exact H.
+Qed.
+
+(* capture_freezes, for every expression: when the names the expression mentions are bound to plain literals in the
+   snapshot (or not at all) and nothing is attribute-folded, the rewritten tree computes in ANY later environment
+   exactly what the original computes with the snapshot's values in front of that environment *)
+Theorem rw_sem (B : backend) (ops : list string) ce e e' :
+  ce_attrs ce = [] -> lit_names ce e -> rewrite_captured ce e = Ok e' ->
+  forall later, eval B ops later e' = eval B ops (vals ce ++ later) e.
+Proof.
+  intros Hattr Hln Hrw later. unfold rewrite_captured in Hrw. apply sbind_ok in Hrw. destruct Hrw as [[e1 r] [Hrw H]].
+  inversion H; subst; clear H. cbn [fst].
+  set (l := ce_nonlocals ce ++ ce_globals ce).
+  assert (Hlv : forall x, lookup_var ce x = assoc x l).
+  { intros x. unfold lookup_var, l. rewrite assoc_app. destruct (assoc x (ce_nonlocals ce)); reflexivity. }
+  transitivity (eval B ops (firsts [] l ++ later) e).
+  - symmetry. apply (eqv_eq B ops (firsts [] l ++ later) later).
+    refine (proj1 (rw_ok2_all B ops ce Hattr (S (size e)) e (Nat.lt_succ_diag_r _) [] _ _ e' r Hln _ Hrw)).
+    intros x. cbn [is_arg existsb]. rewrite EvalAgree.lookup_app, lookup_firsts, Hlv. cbn [mem existsb].
+    destruct (assoc x l) as [[c|f]|]; try reflexivity. destruct (const_value c); reflexivity.
+  - apply eval_agree. intros y Hy. rewrite !EvalAgree.lookup_app, lookup_firsts. cbn [mem existsb].
+    unfold vals. fold l. apply occurs_names in Hy. specialize (Hln y Hy). unfold lit_at in Hln. rewrite Hlv in Hln.
+    rewrite (lookup_snapshot_first y l Hln). reflexivity.
+Qed.
+
+Lemma lit_env_names ce e : lit_env ce -> lit_names ce e.
+Proof.
+  intros Hlit x _. unfold lit_at. destruct (lookup_var ce x) as [[c|f]|] eqn:Hl; [| |exact I].
+  - eapply lit_lookup; eauto.
+  - eapply lit_lookup_fun; eauto.
+Qed.
+
+(* the whole callable path on literal snapshots: freeze, then resolve the called lambdas written in the query *)
+Theorem parse_callable_sem (B : backend) (ops : list string) ce e e1 e2 :
+  ce_attrs ce = [] -> lit_names ce e -> rewrite_captured ce e = Ok e1 -> first_order e1 -> resolve_called e1 = Ok e2 ->
+  forall later v, eval B ops (vals ce ++ later) e = Some v -> eval B ops later e2 = Some v.
+Proof.
+  intros Hattr Hln Hrw Hfo Hres later v Hv. unfold resolve_called in Hres. inversion Hres; subst.
+  apply res_sem; [exact Hfo|]. rewrite (rw_sem B ops ce e e1 Hattr Hln Hrw later). exact Hv.
+Qed.
+
+(* a sufficient, computable condition for [first_order]: no parameter name is the callee of a call by name *)
+Lemma is_callee_sub x c e : sub c e -> is_callee x c = true -> is_callee x e = true.
+Proof. induction 1 as [|c0 c1 e0 Hin _ IH]; intros H; [exact H|]. eapply is_callee_child; eauto. Qed.
+
+Lemma sub_trans a b c : sub a b -> sub b c -> sub a c.
+Proof. intros Hab Hbc. induction Hbc as [|x c0 e0 Hin _ IH]; [exact Hab|]. eapply sub_step; [exact Hin | apply IH; exact Hab]. Qed.
+
+Lemma first_order_of_no_callee e : (forall x, is_callee x e = false) -> first_order e.
+Proof.
+  intros H ps b args kwn kwv Hs p Hp. destruct (is_callee p b) eqn:E; [|reflexivity].
+  assert (Hb : sub b e).
+  { eapply sub_trans; [|exact Hs].
+    eapply sub_step; [left; reflexivity|]. eapply sub_step; [left; reflexivity | apply sub_refl]. }
+  pose proof (is_callee_sub p b e Hb E) as Hc. rewrite H in Hc. discriminate.
+Qed.
